@@ -29,6 +29,7 @@ package tests
 // Output, one line per case:
 //   C <wid> <k1> <k2|-> | <phase-1 record> | <phase-2 record or -> | <probe>
 //   phase record: N=<ops of the calls of this phase> crash=<ops that took effect before the crash, -1 none>
+//       at=<call:j | idle:j | none>  (the crash fell inside call j / between calls, after j calls had returned)
 //       calls=<kind:arg:start:end:res;...> trace=<tok,tok*n,...>   (tok*n: n consecutive operations tok)
 //       (trace = ALL normalised mutating FS operations of the phase, also those after the crash point: the
 //        interrupted call runs on with syncs ignored, so its whole operation sequence is visible; pebble's
@@ -472,7 +473,25 @@ func vcRecord(calls []vcCall, n int, tr string, crashIx int) string {
 	for _, c := range calls {
 		cs = append(cs, fmt.Sprintf("%s:%d:%d:%d:%s", c.kind, c.arg, c.start, c.end, c.res))
 	}
-	return fmt.Sprintf("N=%d crash=%d calls=%s trace=%s", n, crashIx, strings.Join(cs, ";"), tr)
+	// where the crash fell: inside call number j (0-based), or while no call was running (after call j-1;
+	// operations between calls are background jobs of the store)
+	at := "none"
+	if crashIx >= 0 {
+		at = "idle:0"
+		for j, c := range calls {
+			if c.start < 0 {
+				continue
+			}
+			if c.start <= crashIx && crashIx < c.end {
+				at = "call:" + strconv.Itoa(j)
+				break
+			}
+			if c.end <= crashIx {
+				at = "idle:" + strconv.Itoa(j+1)
+			}
+		}
+	}
+	return fmt.Sprintf("N=%d crash=%d at=%s calls=%s trace=%s", n, crashIx, at, strings.Join(cs, ";"), tr)
 }
 
 func vcProbe(mem *vfs.MemFS, z *vcNorm, keys []string) string {
